@@ -850,11 +850,7 @@ func c09Jobs(r *mon.Run) []c09Job {
 			i++
 			cases = append(cases, c09Case{Kind: "free", Via: "raw", N: n, Indices: idx, List: list})
 		})
-		// split the biggest sizes over several labs
-		chunk := 700
-		for off := 0; off < len(cases); off += chunk {
-			jobs = append(jobs, c09Job{name: fmt.Sprintf("A-ordered-n%d-%d", n, off/chunk), cases: cases[off:min(off+chunk, len(cases))]})
-		}
+		jobs = append(jobs, c09Job{name: fmt.Sprintf("A-ordered-n%d", n), cases: cases})
 	}
 
 	// B. index lists with duplicates or out-of-range values, raw client: must change nothing
@@ -1026,7 +1022,19 @@ func c09Jobs(r *mon.Run) []c09Job {
 			jobs = append(jobs, c09Job{name: fmt.Sprintf("F-sequences-%d", j), seqs: seqs})
 		}
 	}
-	return jobs
+	// split big jobs over several labs (the workload is latency-bound)
+	const chunk = 160
+	var split []c09Job
+	for _, j := range jobs {
+		if len(j.cases) <= chunk {
+			split = append(split, j)
+			continue
+		}
+		for off := 0; off < len(j.cases); off += chunk {
+			split = append(split, c09Job{name: fmt.Sprintf("%s#%d", j.name, off/chunk), cases: j.cases[off:min(off+chunk, len(j.cases))]})
+		}
+	}
+	return split
 }
 
 func runC09(r *mon.Run, replay string) {
@@ -1056,7 +1064,7 @@ func runC09(r *mon.Run, replay string) {
 	r.Extra("planned_cases", total)
 	r.Extra("exhaustive", map[string]any{"ordered_index_selections_up_to_n": r.Pick(5, 7), "note": "exhaustive only for sub-space A (and C up to tuple length 3)"})
 	var wg sync.WaitGroup
-	sem := make(chan struct{}, 8)
+	sem := make(chan struct{}, 20)
 	for ji, job := range jobs {
 		wg.Add(1)
 		sem <- struct{}{}
@@ -1076,12 +1084,18 @@ func runC09(r *mon.Run, replay string) {
 }
 
 func c09RunJob(r *mon.Run, ji int, job c09Job) error {
+	t0 := time.Now()
 	c, err := newC09(r, job.name, uint64(ji)+1)
 	if err != nil {
 		return err
 	}
 	defer c.close()
-	defer func() { r.Count("handler_panics_recovered", c.lab.HostPanics()) }()
+	r.Count("labs", 1)
+	r.Count("lab_setup_ms", int(time.Since(t0).Milliseconds()))
+	defer func() {
+		r.Count("handler_panics_recovered", c.lab.HostPanics())
+		r.Count("job_ms_total", int(time.Since(t0).Milliseconds()))
+	}()
 	for _, cs := range job.cases {
 		if err := c.attempt(cs, false); err != nil {
 			return err
